@@ -295,7 +295,14 @@ package graphsync
 //@   ensures [resumes-the-live-request] {C11} c.requestID != nil && !c.requesterCancelled && calls(ToExtensionData) == (msg != nil ? 1 : 0) && (msg != nil ==> ret(ToExtensionData, 1) == nil) ==>
 //@       calls(GraphExchange.Unpause) == 1 && all(GraphExchange.Unpause, $2 == *c.requestID) && result == ret(GraphExchange.Unpause, 0) && c.xferStarted
 //@   ensures [queued-while-requester-away] {C10} c.requestID != nil && c.requesterCancelled ==> never(GraphExchange.Unpause)
-//@   ensures [cancelled-channel] {C11} c.requestID == nil ==> never(GraphExchange.Unpause) && never(ToExtensionData) && result == nil
+//@   guarantee [queue-appended] {C10} self.requestID != nil && self.requesterCancelled ==>
+//@       len(self.pendingExtensions) == len(old(self.pendingExtensions)) + (calls(ToExtensionData) == 1 && ret(ToExtensionData, 1) == nil ? len(ret(ToExtensionData, 0)) : 0)
+//@   guarantee [queue-kept] {C10} self.requestID != nil && self.requesterCancelled ==>
+//@       (forall i int :: 0 <= i && i < len(old(self.pendingExtensions)) ==> self.pendingExtensions[i] == old(self.pendingExtensions)[i])
+//@       -- a message for a requester that is away joins the queue behind the ones already waiting: none of those is dropped or moved
+//@   guarantee [queue-tail] {C10} self.requestID != nil && self.requesterCancelled && calls(ToExtensionData) == 1 && ret(ToExtensionData, 1) == nil ==>
+//@       (forall j int :: 0 <= j && j < len(ret(ToExtensionData, 0)) ==> self.pendingExtensions[len(old(self.pendingExtensions)) + j] == ret(ToExtensionData, 0)[j])
+//@   guarantee [queue-untouched-otherwise] {C10} !(self.requestID != nil && self.requesterCancelled) ==> len(self.pendingExtensions) == len(old(self.pendingExtensions))
 //@   modifies c.pendingExtensions, c.xferStarted
 //@   acquires {C20} graphsync.dtChannel.lk
 //@ func (*graphsync.dtChannel).gsReqOpened {C16,C20}
